@@ -3,6 +3,8 @@
 //
 // ops:  s <t_ms> <value f64 hex> <st_ms>                         append one sample (AppenderV2, with start timestamp)
 //       q <fn> <range_ms> <offset_ms> <eval_ts_ms> <useST 0|1>   instant query  fn(m{c="<case>"}[range] offset o) @ ts
+//         (written back as `q ... obs=v:<hex>|obs=none [exact]`: the observed value travels in the op line so that the
+//          model can answer up to the documented rounding tolerance; -x exact=1 demands bit-for-bit equality)
 // out:  s -> ok | err
 //       q -> none w=<0|1> | v <f64 hex> w=<0|1> | multi | err     (w = start-time-overlap warning present)
 package main
@@ -105,7 +107,7 @@ func (e *env) runCase(c *h.Ctx, ops []string) {
 				out = "err"
 			}
 			c.Op(op, out)
-		case f[0] == "q" && len(f) == 6:
+		case f[0] == "q" && len(f) >= 6:
 			rng, e1 := strconv.ParseInt(f[2], 10, 64)
 			off, e2 := strconv.ParseInt(f[3], 10, 64)
 			ts, e3 := strconv.ParseInt(f[4], 10, 64)
@@ -128,7 +130,17 @@ func (e *env) runCase(c *h.Ctx, ops []string) {
 				_ = v
 			}
 			c.Count("fn:" + f[1])
-			c.Count("out:" + strings.Fields(out)[0])
+			of := strings.Fields(out)
+			c.Count("out:" + of[0])
+			// the op line records the observation (see renderTol in RateSuite.lean); replays re-observe
+			obs := "obs=none"
+			if of[0] == "v" && len(of) > 1 {
+				obs = "obs=v:" + of[1]
+			}
+			op = strings.Join(f[:6], " ") + " " + obs
+			if c.Extra["exact"] == "1" {
+				op += " exact"
+			}
 			c.Op(op, out)
 		default:
 			c.Op(op, "bad-op")
